@@ -80,6 +80,15 @@ def pool(tier):
     terms += [Forall(xA, P(A)(xA)), Forall(xSA, ySA, Eq(xSA, ySA)), Forall(xA, Eq(xA, sxA)), Forall(xA, P(A)(yA))]
     terms += [Implies(Var('p', BoolType), SVar('q', BoolType)), Implies(P(A)(xA), P(A)(yA))]
     terms += [Bound(0), P(A)(Bound(0)), Comb(P(A), sxSA), Eq(xA, xSA) if False else Comb(Var('f', TFun(A, A)), xA)]
+    # function-typed variables as arguments of forall_intr / abstraction / reflexive (head-position occurrences in hypotheses)
+    terms += [P(A), Var('f', TFun(A, A)), SVar('Q', TFun(A, BoolType))]
+    # redexes / quantified statements whose body uses one Python object (with a loose bound variable) at two binder depths
+    from kernel.term import Abs
+    fB = Comb(Var('f', TFun(A, A)), Bound(0))
+    terms += [Comb(Abs('x', A, Eq(fB, Comb(Abs('y', A, fB), yA))), xA)]
+    pB = Comb(P(A), Bound(0))
+    from kernel.term import Const as _C
+    terms += [Comb(_C('all', TFun(TFun(A, BoolType), BoolType)), Abs('x', A, Implies(pB, Comb(_C('all', TFun(TFun(A, BoolType), BoolType)), Abs('y', A, pB)))))]
     insts = []
     for nm, ts in (('x', [Var('c', B), Var('c', A), xA, yA, ySA, Bound(0), Comb(Var('f', TFun(A, A)), xA)]),
                    ('y', [Var('c', B), xA, sxSA]),
@@ -106,7 +115,7 @@ def step_args(rule, p):
     if rule == 'beta_conv':
         return [('t', i) for i, t in enumerate(p['terms']) if t.is_comb()]
     if rule in ('forall_intr', 'abstraction'):
-        return [('t', i) for i, t in enumerate(p['terms']) if i < len(p['leaves']) or t.is_bound() or t.is_const()]
+        return [('t', i) for i, t in enumerate(p['terms']) if i < len(p['leaves']) or t.is_bound() or t.is_const() or t.is_var() or t.is_svar()]
     if rule == 'subst_type':
         return [('ty', i) for i in range(len(p['tyinsts']))]
     if rule == 'substitution':
@@ -174,6 +183,7 @@ def thm_key(th):
 # ------------------------------------------------------------------ exploration
 
 ORACLE = None
+TRIVIAL = [0]
 
 
 def judge(th):
@@ -184,7 +194,11 @@ def judge(th):
         ORACLE = Oracle(timeout_ms=1500)
     if not well_typed_thm(th):
         return 'ill-typed-accepted', None
-    v = ORACLE.valid(th.hyps, th.prop)
+    # syntactically trivial sequents (A |- A, |- t = t) are valid by inspection: no solver call
+    if th.prop in th.hyps or (th.prop.is_equals() and th.prop.lhs == th.prop.rhs):
+        TRIVIAL[0] += 1
+        return None, None
+    v = ORACLE.valid(th.hyps, th.prop, key=thm_key(th))      # memo persists across the units a worker processes
     if v.status == 'invalid':
         return 'invalid-accepted', v
     if v.status == 'unknown':
@@ -275,6 +289,8 @@ def run_unit(u):
             k = NPREV[rule]
             if k > n:
                 continue
+            if k == 0 and depth == L - 1:
+                continue    # a premise-free rule as the last step yields a sequent already reached as a first step
             for a in allargs[rule]:
                 for pv in itertools.product(range(n), repeat=k):
                     item = try_step(rule, a, pv)
@@ -304,7 +320,8 @@ def run_unit(u):
     if ORACLE is not None:
         out['stats'].update({'oracle_calls': ORACLE.calls, 'oracle_queries': ORACLE.queries, 'oracle_s': round(ORACLE.seconds, 3),
                              'oracle_valid_all_models': ORACLE.counts['valid'], 'oracle_valid_finite_only': ORACLE.counts['valid-bounded'],
-                             'oracle_invalid': ORACLE.counts['invalid'], 'oracle_unknown': ORACLE.counts['unknown']})
+                             'oracle_invalid': ORACLE.counts['invalid'], 'oracle_unknown': ORACLE.counts['unknown'], 'trivially_valid_no_solver': TRIVIAL[0]})
+        TRIVIAL[0] = 0
         ORACLE.calls = ORACLE.queries = 0
         ORACLE.seconds = 0.0
         for k in ORACLE.counts:
